@@ -421,6 +421,8 @@ func (nt *Net) startNode(n *Node) bool {
 		// that is drained only once the ticker runs
 		nt.Mon.report("C07", map[string]string{"kind": "start-blocks-on-the-timeout-ticker", "site": "ConsensusState.OnStart"},
 			fmt.Sprintf("node %d scheduled %d timeouts during its start before the timeout ticker was started: with the real ticker (channel of %d) the start never returns", n.Idx, k, k-1))
+		nt.Mon.report("C12", map[string]string{"kind": "restart-never-completes", "site": "ConsensusState.OnStart"},
+			fmt.Sprintf("node %d scheduled %d timeouts during its start before the timeout ticker was started: with the real ticker the start never returns and the validator never commits again", n.Idx, k))
 	}
 	n.peers = map[int]*p2p.Peer{}
 	for _, o := range nt.Nodes {
